@@ -9,7 +9,7 @@ GOSSIPSIM_STUB = {
     "chain (GetUtxo, GetBlock, block epochs, filtered chain view)": "simulator chain: funding outputs existing / missing / spent / wrong script / wrong amount; spends only when the tape says so",
     "peers, sync managers' remote side, message signer for own announcements": "simulator stubs (1-3 gossip peers plus one peer per remote endpoint of an own channel; every message a peer is sent is recorded as 'relayed')",
     "independent reading of gossip messages": "simulator parses raw BOLT-7 wire bytes, double-SHA256 of the signed part, btcec signature verification; nothing in the oracle calls lnwire or netann",
-    "graph/db.KVStore under concurrent callers (store-race arm, 1 run in 16)": "real KVStore (reject cache, channel cache, batch scheduler with its cacheMu locker) on a SimKV bbolt file, OUTSIDE the bubble: 2-3 real caller goroutines (HasChannelEdge, UpdateEdgePolicy, AddChannelEdge, DeleteChannelEdges, MarkEdgeLive, FilterKnownChanIDs, ChanUpdatesInHorizon) parked at the entry and exit of every database transaction and released one at a time by the tape; whether a released goroutine reached its next point, finished or waits for a lock is read from the runtime's goroutine states (runtime.Stack), not from a timeout; the gossiper and builder are not part of this arm",
+    "graph/db.KVStore / SQLStore under concurrent callers (store-race arm, 1 run in 16, a third of them on sqlite)": "real KVStore on a SimKV bbolt file or real SQLStore on sqlite (reject cache, channel cache, batch scheduler with its cacheMu locker), OUTSIDE the bubble; add/update/mark-live calls for one channel are serialised and carry increasing timestamps, as graph.Builder's per-channel mutex guarantees, lookups, range queries and deletes are not: 2-3 real caller goroutines (HasChannelEdge, UpdateEdgePolicy, AddChannelEdge, DeleteChannelEdges, MarkEdgeLive, FilterKnownChanIDs, ChanUpdatesInHorizon) parked at the entry and exit of every database transaction (SimKV.OnTx/OnTxEnd; a wrapper around the SQL store's ExecTx) and released one at a time by the tape; whether a released goroutine reached its next point, finished or waits for a lock is read from the runtime's goroutine states (runtime.Stack), not from a timeout; the gossiper and builder are not part of this arm",
     "gossip v2, the real peer/brontide stack, historical sync (gossip_timestamp_filter back-fill is exercised, query_channel_range is not)": "not simulated",
 }
 GOSSIPSIM_ASSUME = [
